@@ -14,7 +14,7 @@ package service
 //@ requires [C16] both_pending_indexes_list_the_same_requests: idxInv(raw)
 //@ requires [C16] no_orphan_request_or_response_record: recInv(raw)
 //@ preserves [C10] never_more_batches_than_the_largest_total: cadInv(raw, ghostMaxTot)
-//@ preserves [C12,C16,C08] open_batches_count_their_pending_requests: cntInv(raw)
+//@ preserves [C12,C16,C08,C04] open_batches_count_their_pending_requests: cntInv(raw)
 //@ modifies raw, bal, cblog
 //@ preserves wf: WF(raw)
 //@ preserves [C03] deposits_in_custody: depInv(raw, bal)
@@ -22,7 +22,7 @@ package service
 //@ requires called_with_the_stored_context: ctxFound(raw, requestContextID) && requestContext == ctxOf(raw, requestContextID) && rng_RequestContext(requestContext)
 //@ requires providers_bounded: len(requestContext.Providers) <= 32767
 //@ requires [C11] processed_entry_is_well_formed: raw[KNewQ(ctxHeight(ctx), requestContextID)] != bnil && newOK(raw, ctxHeight(ctx), requestContextID)
-//@ preserves [C16,C02,C01,C08] pending_requests_stay_well_formed: actInv(raw)
+//@ preserves [C16,C02,C01,C08,C04] pending_requests_stay_well_formed: actInv(raw)
 //@ requires [C11] queues_are_well_formed: schedInv(raw)
 //@ ensures [C11] contexts_stay_well_formed: ctxAllOK(raw)
 //@ ensures [C11] expiry_entries_stay_well_formed: expAllOK(raw)
@@ -83,7 +83,7 @@ package service
 //@ vars service.EndBlocker: ctx=github.com/cosmos/cosmos-sdk/types.Context#0 k=github.com/irismod/service/keeper.Keeper#0 expiredRequestHandler=func#0 expiredRequestBatchHandler=func#1 providerRequests=map[string][]string#0 newRequestBatchHandler=func#2 provider=string#0 requests=[]string#0 requestsJSON=[]byte#0 str=[]string#1
 //@ props C02 C04 C08 C16 C03 C20
 //@ preserves [C16] both_pending_indexes_list_the_same_requests: idxInv(raw)
-//@ preserves [C01,C02,C16] pending_requests_stay_well_formed: actInv(raw)
+//@ preserves [C01,C02,C16,C04] pending_requests_stay_well_formed: actInv(raw)
 //@ modifies raw, bal, supply
 //@ preserves wf: WF(raw)
 //@ preserves [C03] deposits_in_custody: depInv(raw, bal)
@@ -124,7 +124,7 @@ package service
 //@ preserves [C16] both_pending_indexes_list_the_same_requests: idxInv(raw)
 //@ preserves [C16] no_orphan_request_or_response_record: recInv(raw)
 //@ preserves [C10] never_more_batches_than_the_largest_total: cadInv(raw, ghostMaxTot)
-//@ preserves [C12,C16,C08] open_batches_count_their_pending_requests: cntInv(raw)
+//@ preserves [C12,C16,C08,C04] open_batches_count_their_pending_requests: cntInv(raw)
 //@ modifies raw, bal, supply, cblog
 //@ preserves wf: WF(raw)
 //@ preserves [C03] deposits_in_custody: depInv(raw, bal)
@@ -181,9 +181,9 @@ package service
 //@ preserves [C01,C02] escrow_exactly_backed: escInv(raw, bal) && earnNonneg(raw) && wfEarned(raw)
 //@ preserves [C10] never_more_batches_than_the_largest_total: cadInv(raw, ghostMaxTot)
 //@ preserves [C11] no_event_in_the_past: futInv(raw, ctxHeight(ctx))
-//@ preserves [C12,C16,C08] open_batches_count_their_pending_requests: cntInv(raw)
+//@ preserves [C12,C16,C08,C04] open_batches_count_their_pending_requests: cntInv(raw)
 //@ preserves [C11] queues_stay_well_formed: schedInv(raw)
-//@ preserves [C16,C08,C02,C01] pending_requests_stay_well_formed: actInv(raw)
+//@ preserves [C16,C08,C02,C01,C04] pending_requests_stay_well_formed: actInv(raw)
 //@ modifies raw
 //@ ensures [C15] defines_once: err == NoErr ==> !defFound(old(raw), msg.Name) && raw == old(raw)[KDef(msg.Name) := raw[KDef(msg.Name)]]
 //@ ensures error_changes_nothing: err != NoErr ==> raw == old(raw)
@@ -197,14 +197,14 @@ package service
 //@ preserves [C01,C02] escrow_exactly_backed: escInv(raw, bal) && earnNonneg(raw) && wfEarned(raw)
 //@ preserves [C10] never_more_batches_than_the_largest_total: cadInv(raw, ghostMaxTot)
 //@ preserves [C11] no_event_in_the_past: futInv(raw, ctxHeight(ctx))
-//@ preserves [C12,C16,C08] open_batches_count_their_pending_requests: cntInv(raw)
+//@ preserves [C12,C16,C08,C04] open_batches_count_their_pending_requests: cntInv(raw)
 //@ preserves [C11] queues_stay_well_formed: schedInv(raw)
-//@ preserves [C16,C08,C02,C01] pending_requests_stay_well_formed: actInv(raw)
+//@ preserves [C16,C08,C02,C01,C04] pending_requests_stay_well_formed: actInv(raw)
 //@ modifies raw, bal
 //@ preserves wf: WF(raw)
 //@ preserves [C03] deposits_in_custody: depInv(raw, bal)
 //@ requires a3_signer_ordinary: ordinary(msg.Owner)
-//@ requires a2_validated: (forall d Str :: amt(msg.Deposit, d) >= 0) && len(msg.Provider) > 0
+//@ requires a2_validated: (forall d Str :: amt(msg.Deposit, d) >= 0) && len(msg.Provider) > 0 && len(msg.Owner) > 0
 //@ ensures [C05] module_services_cannot_be_bound: err == NoErr ==> !moduleSvcFound(msg.ServiceName)
 //@ ensures [C05] provider_keeps_its_owner: err == NoErr ==> (ownerFound(old(raw), msg.Provider) ==> addrEq(msg.Owner, ownerOf(old(raw), msg.Provider)))
 //@ ensures [C05] only_the_signer_is_debited: forall a Bytes, d Str :: {bal[a][d]} a != msg.Owner ==> bal[a][d] >= old(bal)[a][d]
@@ -219,9 +219,9 @@ package service
 //@ preserves [C01,C02] escrow_exactly_backed: escInv(raw, bal) && earnNonneg(raw) && wfEarned(raw)
 //@ preserves [C10] never_more_batches_than_the_largest_total: cadInv(raw, ghostMaxTot)
 //@ preserves [C11] no_event_in_the_past: futInv(raw, ctxHeight(ctx))
-//@ preserves [C12,C16,C08] open_batches_count_their_pending_requests: cntInv(raw)
+//@ preserves [C12,C16,C08,C04] open_batches_count_their_pending_requests: cntInv(raw)
 //@ preserves [C11] queues_stay_well_formed: schedInv(raw)
-//@ preserves [C16,C08,C02,C01] pending_requests_stay_well_formed: actInv(raw)
+//@ preserves [C16,C08,C02,C01,C04] pending_requests_stay_well_formed: actInv(raw)
 //@ modifies raw, bal
 //@ preserves wf: WF(raw)
 //@ preserves [C03] deposits_in_custody: depInv(raw, bal)
@@ -239,9 +239,9 @@ package service
 //@ preserves [C01,C02] escrow_exactly_backed: escInv(raw, bal) && earnNonneg(raw) && wfEarned(raw)
 //@ preserves [C10] never_more_batches_than_the_largest_total: cadInv(raw, ghostMaxTot)
 //@ preserves [C11] no_event_in_the_past: futInv(raw, ctxHeight(ctx))
-//@ preserves [C12,C16,C08] open_batches_count_their_pending_requests: cntInv(raw)
+//@ preserves [C12,C16,C08,C04] open_batches_count_their_pending_requests: cntInv(raw)
 //@ preserves [C11] queues_stay_well_formed: schedInv(raw)
-//@ preserves [C16,C08,C02,C01] pending_requests_stay_well_formed: actInv(raw)
+//@ preserves [C16,C08,C02,C01,C04] pending_requests_stay_well_formed: actInv(raw)
 //@ modifies raw
 //@ ensures [C13,C05] only_the_signers_own_withdrawal_address_changes: raw == old(raw)[KWAddr(msg.Owner) := raw[KWAddr(msg.Owner)]] && withdrawAddrOf(raw, msg.Owner) == msg.WithdrawAddress
 //@ requires a2_validated: len(msg.WithdrawAddress) > 0
@@ -255,9 +255,9 @@ package service
 //@ preserves [C01,C02] escrow_exactly_backed: escInv(raw, bal) && earnNonneg(raw) && wfEarned(raw)
 //@ preserves [C10] never_more_batches_than_the_largest_total: cadInv(raw, ghostMaxTot)
 //@ preserves [C11] no_event_in_the_past: futInv(raw, ctxHeight(ctx))
-//@ preserves [C12,C16,C08] open_batches_count_their_pending_requests: cntInv(raw)
+//@ preserves [C12,C16,C08,C04] open_batches_count_their_pending_requests: cntInv(raw)
 //@ preserves [C11] queues_stay_well_formed: schedInv(raw)
-//@ preserves [C16,C08,C02,C01] pending_requests_stay_well_formed: actInv(raw)
+//@ preserves [C16,C08,C02,C01,C04] pending_requests_stay_well_formed: actInv(raw)
 //@ modifies raw
 //@ preserves wf: WF(raw)
 //@ preserves [C03] deposits_in_custody: depInv(raw, bal)
@@ -273,9 +273,9 @@ package service
 //@ preserves [C01,C02] escrow_exactly_backed: escInv(raw, bal) && earnNonneg(raw) && wfEarned(raw)
 //@ preserves [C10] never_more_batches_than_the_largest_total: cadInv(raw, ghostMaxTot)
 //@ preserves [C11] no_event_in_the_past: futInv(raw, ctxHeight(ctx))
-//@ preserves [C12,C16,C08] open_batches_count_their_pending_requests: cntInv(raw)
+//@ preserves [C12,C16,C08,C04] open_batches_count_their_pending_requests: cntInv(raw)
 //@ preserves [C11] queues_stay_well_formed: schedInv(raw)
-//@ preserves [C16,C08,C02,C01] pending_requests_stay_well_formed: actInv(raw)
+//@ preserves [C16,C08,C02,C01,C04] pending_requests_stay_well_formed: actInv(raw)
 //@ modifies raw, bal
 //@ preserves wf: WF(raw)
 //@ preserves [C03] deposits_in_custody: depInv(raw, bal)
@@ -294,9 +294,9 @@ package service
 //@ preserves [C01,C02] escrow_exactly_backed: escInv(raw, bal) && earnNonneg(raw) && wfEarned(raw)
 //@ preserves [C10] never_more_batches_than_the_largest_total: cadInv(raw, ghostMaxTot)
 //@ preserves [C11] no_event_in_the_past: futInv(raw, ctxHeight(ctx))
-//@ preserves [C12,C16,C08] open_batches_count_their_pending_requests: cntInv(raw)
+//@ preserves [C12,C16,C08,C04] open_batches_count_their_pending_requests: cntInv(raw)
 //@ preserves [C11] queues_stay_well_formed: schedInv(raw)
-//@ preserves [C16,C08,C02,C01] pending_requests_stay_well_formed: actInv(raw)
+//@ preserves [C16,C08,C02,C01,C04] pending_requests_stay_well_formed: actInv(raw)
 //@ modifies raw, bal
 //@ preserves wf: WF(raw)
 //@ preserves [C03] deposits_in_custody: depInv(raw, bal)
@@ -307,14 +307,14 @@ package service
 
 //@ func handleMsgPauseRequestContext
 //@ vars service.handleMsgPauseRequestContext: ctx=github.com/cosmos/cosmos-sdk/types.Context#0 k=github.com/irismod/service/keeper.Keeper#0 msg=*github.com/irismod/service/types.MsgPauseRequestContext#0 err=error#0 err=error#1
-//@ preserves [C01,C02,C16,C11] pending_requests_stay_well_formed: actInv(raw)
+//@ preserves [C01,C02,C16,C11,C04] pending_requests_stay_well_formed: actInv(raw)
 //@ props C05 C09 C20
 //@ preserves [C16] both_pending_indexes_list_the_same_requests: idxInv(raw)
 //@ preserves [C16] no_orphan_request_or_response_record: recInv(raw)
 //@ preserves [C01,C02] escrow_exactly_backed: escInv(raw, bal) && earnNonneg(raw) && wfEarned(raw)
 //@ preserves [C10] never_more_batches_than_the_largest_total: cadInv(raw, ghostMaxTot)
 //@ preserves [C11] no_event_in_the_past: futInv(raw, ctxHeight(ctx))
-//@ preserves [C12,C16,C08] open_batches_count_their_pending_requests: cntInv(raw)
+//@ preserves [C12,C16,C08,C04] open_batches_count_their_pending_requests: cntInv(raw)
 //@ preserves [C11] queues_stay_well_formed: schedInv(raw)
 //@ modifies raw
 //@ ensures [C05] only_the_consumer_and_never_a_module_context: err == NoErr ==> (let c := ctxOf(old(raw), msg.RequestContextId) in
@@ -326,14 +326,14 @@ package service
 
 //@ func handleMsgStartRequestContext
 //@ vars service.handleMsgStartRequestContext: ctx=github.com/cosmos/cosmos-sdk/types.Context#0 k=github.com/irismod/service/keeper.Keeper#0 msg=*github.com/irismod/service/types.MsgStartRequestContext#0 err=error#0 err=error#1
-//@ preserves [C01,C02,C16,C11] pending_requests_stay_well_formed: actInv(raw)
+//@ preserves [C01,C02,C16,C11,C04] pending_requests_stay_well_formed: actInv(raw)
 //@ props C05 C09 C20
 //@ preserves [C16] both_pending_indexes_list_the_same_requests: idxInv(raw)
 //@ preserves [C16] no_orphan_request_or_response_record: recInv(raw)
 //@ preserves [C01,C02] escrow_exactly_backed: escInv(raw, bal) && earnNonneg(raw) && wfEarned(raw)
 //@ preserves [C10] never_more_batches_than_the_largest_total: cadInv(raw, ghostMaxTot)
 //@ preserves [C11] no_event_in_the_past: futInv(raw, ctxHeight(ctx))
-//@ preserves [C12,C16,C08] open_batches_count_their_pending_requests: cntInv(raw)
+//@ preserves [C12,C16,C08,C04] open_batches_count_their_pending_requests: cntInv(raw)
 //@ preserves [C11] queues_stay_well_formed: schedInv(raw)
 //@ modifies raw
 //@ ensures [C05] only_the_consumer_and_never_a_module_context: err == NoErr ==> (let c := ctxOf(old(raw), msg.RequestContextId) in
@@ -344,14 +344,14 @@ package service
 
 //@ func handleMsgKillRequestContext
 //@ vars service.handleMsgKillRequestContext: ctx=github.com/cosmos/cosmos-sdk/types.Context#0 k=github.com/irismod/service/keeper.Keeper#0 msg=*github.com/irismod/service/types.MsgKillRequestContext#0 err=error#0 err=error#1
-//@ preserves [C01,C02,C16,C11] pending_requests_stay_well_formed: actInv(raw)
+//@ preserves [C01,C02,C16,C11,C04] pending_requests_stay_well_formed: actInv(raw)
 //@ props C05 C09 C20
 //@ preserves [C16] both_pending_indexes_list_the_same_requests: idxInv(raw)
 //@ preserves [C16] no_orphan_request_or_response_record: recInv(raw)
 //@ preserves [C01,C02] escrow_exactly_backed: escInv(raw, bal) && earnNonneg(raw) && wfEarned(raw)
 //@ preserves [C10] never_more_batches_than_the_largest_total: cadInv(raw, ghostMaxTot)
 //@ preserves [C11] no_event_in_the_past: futInv(raw, ctxHeight(ctx))
-//@ preserves [C12,C16,C08] open_batches_count_their_pending_requests: cntInv(raw)
+//@ preserves [C12,C16,C08,C04] open_batches_count_their_pending_requests: cntInv(raw)
 //@ preserves [C11] queues_stay_well_formed: schedInv(raw)
 //@ modifies raw
 //@ ensures [C05] only_the_consumer_and_never_a_module_context: err == NoErr ==> (let c := ctxOf(old(raw), msg.RequestContextId) in
@@ -363,7 +363,7 @@ package service
 
 //@ func handleMsgUpdateRequestContext
 //@ vars service.handleMsgUpdateRequestContext: ctx=github.com/cosmos/cosmos-sdk/types.Context#0 k=github.com/irismod/service/keeper.Keeper#0 msg=*github.com/irismod/service/types.MsgUpdateRequestContext#0 err=error#0 err=error#1
-//@ preserves [C01,C02,C16,C11] pending_requests_stay_well_formed: actInv(raw)
+//@ preserves [C01,C02,C16,C11,C04] pending_requests_stay_well_formed: actInv(raw)
 //@ props C05 C09 C10 C20
 //@ preserves [C16] both_pending_indexes_list_the_same_requests: idxInv(raw)
 //@ preserves [C16] no_orphan_request_or_response_record: recInv(raw)
@@ -371,7 +371,7 @@ package service
 //@ requires [C10] never_more_batches_than_the_largest_total: cadInv(raw, ghostMaxTot)
 //@ ensures [C10] never_more_batches_than_the_largest_total_kept: err == NoErr ==> cadInv(raw, maxNext(ghostMaxTot, raw))
 //@ preserves [C11] no_event_in_the_past: futInv(raw, ctxHeight(ctx))
-//@ preserves [C12,C16,C08] open_batches_count_their_pending_requests: cntInv(raw)
+//@ preserves [C12,C16,C08,C04] open_batches_count_their_pending_requests: cntInv(raw)
 //@ preserves [C11] queues_stay_well_formed: schedInv(raw)
 //@ modifies raw
 //@ requires a2_validated: msg.Timeout >= 0
@@ -415,9 +415,9 @@ package service
 //@ preserves [C16] no_orphan_request_or_response_record: recInv(raw)
 //@ preserves [C10] never_more_batches_than_the_largest_total: cadInv(raw, ghostMaxTot)
 //@ preserves [C11] no_event_in_the_past: futInv(raw, ctxHeight(ctx))
-//@ preserves [C12,C16,C08] open_batches_count_their_pending_requests: cntInv(raw)
+//@ preserves [C12,C16,C08,C04] open_batches_count_their_pending_requests: cntInv(raw)
 //@ preserves [C11] queues_stay_well_formed: schedInv(raw)
-//@ preserves [C16,C08,C02,C01] pending_requests_stay_well_formed: actInv(raw)
+//@ preserves [C16,C08,C02,C01,C04] pending_requests_stay_well_formed: actInv(raw)
 //@ modifies raw, bal, supply, cblog
 //@ preserves [C01,C02] escrow_exactly_backed: escInv(raw, bal) && earnNonneg(raw) && wfEarned(raw)
 //@ preserves wf: WF(raw)
@@ -435,9 +435,9 @@ package service
 //@ preserves [C01,C02] escrow_exactly_backed: escInv(raw, bal) && earnNonneg(raw) && wfEarned(raw)
 //@ preserves [C10] never_more_batches_than_the_largest_total: cadInv(raw, ghostMaxTot)
 //@ preserves [C11] no_event_in_the_past: futInv(raw, ctxHeight(ctx))
-//@ preserves [C12,C16,C08] open_batches_count_their_pending_requests: cntInv(raw)
+//@ preserves [C12,C16,C08,C04] open_batches_count_their_pending_requests: cntInv(raw)
 //@ preserves [C11] queues_stay_well_formed: schedInv(raw)
-//@ preserves [C16,C08,C02,C01] pending_requests_stay_well_formed: actInv(raw)
+//@ preserves [C16,C08,C02,C01,C04] pending_requests_stay_well_formed: actInv(raw)
 //@ modifies raw, bal
 //@ requires a3_signer_address: len(msg.Owner) == 20
 //@ requires owner_total_covers_provider: forall d Str :: pfxSum(raw, POwnerEarned(msg.Owner), d) >= pfxSum(raw, PEarned(msg.Provider), d)
@@ -468,7 +468,7 @@ package service
 //@ preserves [C16] both_pending_indexes_list_the_same_requests: idxInv(raw)
 //@ preserves [C16] no_orphan_request_or_response_record: recInv(raw)
 //@ preserves [C10] never_more_batches_than_the_largest_total: cadInv(raw, ghostMaxTot)
-//@ preserves [C12,C16,C08] open_batches_count_their_pending_requests: cntInv(raw)
+//@ preserves [C12,C16,C08,C04] open_batches_count_their_pending_requests: cntInv(raw)
 //@ modifies raw, bal, supply, cblog
 //@ preserves wf: WF(raw)
 //@ preserves [C03] deposits_in_custody: depInv(raw, bal)
@@ -521,7 +521,7 @@ package service
 //@ vars (keeper.Keeper).IterateServiceBindings: k=github.com/irismod/service/keeper.Keeper#0 ctx=github.com/cosmos/cosmos-sdk/types.Context#0 op=func#0 binding=github.com/irismod/service/types.ServiceBinding#0 stop=bool#0 store=github.com/cosmos/cosmos-sdk/types.KVStore#0 iterator=github.com/cosmos/cosmos-sdk/types.Iterator#0 binding=github.com/irismod/service/types.ServiceBinding#1 stop=bool#1
 //@ vars (keeper.Keeper).IterateServiceDefinitions: k=github.com/irismod/service/keeper.Keeper#0 ctx=github.com/cosmos/cosmos-sdk/types.Context#0 op=func#0 definition=github.com/irismod/service/types.ServiceDefinition#0 stop=bool#0 store=github.com/cosmos/cosmos-sdk/types.KVStore#0 iterator=github.com/cosmos/cosmos-sdk/types.Iterator#0 definition=github.com/irismod/service/types.ServiceDefinition#1 stop=bool#1
 //@ vars (keeper.Keeper).IterateWithdrawAddresses: k=github.com/irismod/service/keeper.Keeper#0 ctx=github.com/cosmos/cosmos-sdk/types.Context#0 op=func#0 owner=github.com/cosmos/cosmos-sdk/types.AccAddress#0 withdrawAddress=github.com/cosmos/cosmos-sdk/types.AccAddress#1 stop=bool#0 store=github.com/cosmos/cosmos-sdk/types.KVStore#0 iterator=github.com/cosmos/cosmos-sdk/types.Iterator#0 ownerAddress=github.com/cosmos/cosmos-sdk/types.AccAddress#2 withdrawAddress=github.com/cosmos/cosmos-sdk/types.AccAddress#3 stop=bool#1
-//@ props C19
+//@ props C19 C18
 //@ loop IterateServiceDefinitions.0 invariant pos_in_range: 0 <= iterator_pos && iterator_pos <= itCount(iterator_snap, iterator_pfx)
 //@ loop IterateServiceDefinitions.0 invariant snapshot: iterator_snap == raw && iterator_pfx == PAllDef
 //@ loop IterateServiceDefinitions.0 invariant listed_so_far: outer_definitions == defsIt(iterator_snap, iterator_pfx, iterator_pos)
